@@ -163,6 +163,20 @@ func gen(tier string) []proto.Item {
 					items = append(items, proto.Item{Scn: s, Class: fmt.Sprintf("%s/r1-30/slower-than-timeout-inside-budget/dest-%d", v, d)})
 				}
 			}
+			// a burst of frames that answer nobody's probe here (time-exceeded for another destination, one every millisecond)
+			// sits in front of a genuine reply that still arrives early in its own window: reading them costs no listening time
+			if r.first == 1 && r.last == 4 {
+				for _, n := range []int{8, 40} {
+					s := base(v, r, dest)
+					s.Hops = map[int]proto.HopSpec{2: {DelayUs: 70000}}
+					s.Bound = 1 // (dozens of deliveries: every one adds scheduling points)
+					if n > 10 {
+						s.Bound = -1
+					}
+					s.Inject = []proto.Inject{{OnTTL: 2, AnswerTTL: 2, Form: vi.TEForm, From: proto.Evil(vi.V6).String(), DelayUs: 1000, Tag: "unrelated-burst", Rewrite: []simnet.Perturb{{Field: "q.dst", Op: "+1"}}, Repeat: n, EveryUs: 1000}}
+					items = append(items, proto.Item{Scn: s, Class: fmt.Sprintf("%s/%s/unrelated-burst-of-%d-before-the-reply", v, rtag, n)})
+				}
+			}
 			// replies that arrive late but inside the budget (one poll interval before the deadline)
 			if vi.Parallel {
 				s := base(v, r, dest)
